@@ -250,6 +250,12 @@ def llCellMasked (c : LLCell) : Bool :=
 def llSum (cells : List LLCell) : Rat :=
   ((cells.filter fun c => !llCellMasked c).map fun c => llBin c.m c.d c.logm c.lgam).sum
 
+/-- the mask of a bootstrap spectrum as its likelihood sees it, after `boot = Spectrum(boot …)` in `get_godambe` (one population: the
+    corner entries are the first and the last) -/
+def bootSeenMask (given : List Bool) : List Bool :=
+  if bootMaskKept then given
+  else (List.range given.length).map fun i => given.getD i false || i == 0 || i + 1 == given.length
+
 /-- `ll_per_bin(model, data).count()` -/
 def llCount (cells : List LLCell) : Nat := (cells.filter fun c => !llCellMasked c).length
 
